@@ -411,6 +411,9 @@ func TestVerifC15File(t *testing.T) {
 		seen[w], lens[len(w)] = true, true
 	}
 
+	// Sequential histories with write faults (fsfault_test.go).
+	c15fPart(r)
+
 	var rc c15wCase
 	if r.ReplayCase("file", &rc) {
 		var env *c15wEnv
